@@ -12,13 +12,15 @@ LEVEL_TEXT = ("TLC explores MBuffObj.tla exhaustively in a small scope (all hist
               "table (ASan build of the current tree, exact-size unterminated argument copies) with bytes, length, return value and the "
               "capacity/allocation invariants compared after every step (the slack behind the length is overwritten with adversarial bytes each step), "
               "plus a sampled 2-step transition cover and random walks; recorded executions with buffers of "
-              "0..20000 bytes built from regular files, files at a non-zero offset, pipes and pipes fed in pieces are validated by TLC "
-              "against the same actions.")
+              "0..20000 bytes built from regular files, files at a non-zero offset, pipes and pipes fed in pieces, a size sweep around "
+              "8..8192 bytes with aliased arguments, every byte value in every position class, and read-fault schedules are validated "
+              "by TLC against the same actions.")
 LEVEL_NOTE = ("Bounded scope for the exhaustive part; beyond it only the recorded executions. Trusted: TLC, the harness projection "
               "(harness/mbuff_replay.c), ASan (a read between len and size of the same heap block is invisible to it; such reads show "
               "only as wrong answers). E (either accepted): the return value of (n)cmp_with_ptr with a count beyond the buffer's length and an "
               "equal prefix (EQUAL or LESS). Not claimed: a negative splice count where the two readings differ, an empty seekable input to "
-              "the stream/descriptor constructors, read() errors/EINTR, sprintf beyond %s/%d/literal formats.")
+              "the stream/descriptor constructors, sprintf beyond %s/%d/literal formats. Read faults (short reads, EINTR, EAGAIN/ECONNRESET/EIO at "
+              "the k-th call; interposed read() / custom stream) are covered by recorded executions only, with E outcomes (see MBuffObj.tla).")
 TECHNIQUE = "TLA+ spec + TLC exhaustive transition cover replayed on the implementation + TLC trace validation"
 DESIGN_REF = "DESIGN.md section 6 C07 (shape of C01), 8a Strings"
 
@@ -484,7 +486,7 @@ def fault_execs(rnd, quick):
     sizes = [300, 4500] if quick else [1, 300, 4096, 4500, 9000]
     for n in sizes:
         t = rnd_bytes(rnd, n, "any")
-        scheds = [[], [1, 1], [1, n // 2], [1, max(1, n // 3), 1, 1]]
+        scheds = [[], [1, 1], [1, max(1, n // 2)], [1, max(1, n // 3), 1, 1]]       # (a 0-byte "short read" would be an EOF)
         for e in (1, 2, 3, 4):
             for k in (1, 2, 3):
                 scheds.append([0, 0] * (k - 1) + [2, e])
@@ -590,6 +592,12 @@ def record_and_validate(ctx, exe, execs, variant="direct", tag="mbuff"):
         ops = execs[sid - 1]
         opd = ops[f.step] if 0 <= f.step < len(ops) else (f.op, [])
         cls = ""
+        if f.kind == "heap" and ops:
+            opd = ops[-1] if ops[-1][0] in FAULT_OPS or len(ops) == 1 else opd      # balance is taken at the end of the script
+        if opd[0] in FAULT_OPS:
+            cls = " [%s]" % argclass({"op": opd[0], "args": opd[1], "pre": INIT})
+            if f.kind == "heap":
+                cls = " after " + opd[0] + cls
         if opd[0] in ("new_from_fd", "new_from_fp"):
             n = len(opd[1][1])
             cls = " [%s,%s]" % (opd[1][0], "n=0" if n == 0 else ("n<=4096" if n <= 4096 else "n>4096"))
